@@ -62,8 +62,8 @@ static void observe(Obs& o, const void* obj, size_t len)
 }
 template<typename T> static void set_result(Obs& o, const T& v) { o.result.assign(reinterpret_cast<const unsigned char*>(&v), reinterpret_cast<const unsigned char*>(&v) + sizeof(T)); o.have_result = true; }
 
-enum Act { A_LENGTHEN, A_SHORTEN, A_FLIP, A_FILLFF, A_RETARGET, A_NACTS };
-static const char* actn[] = { "lengthen-string", "plant-NUL", "flip-values", "fill-0xFF", "retarget-pointers" };
+enum Act { A_LENGTHEN, A_SHORTEN, A_FLIP, A_FILLFF, A_RETARGET, A_ZERO, A_NACTS };
+static const char* actn[] = { "lengthen-string", "plant-NUL", "flip-values", "fill-0xFF", "retarget-pointers", "zero (null the pointers)" };
 
 struct Case
 {
@@ -90,6 +90,7 @@ static Bytes apply(const Case& c, Act a, const Bytes& src)
     case A_FLIP: for (auto& x : b) x = static_cast<unsigned char>(x ^ (c.is_string ? 0x01 : 0x55)); if (c.is_string) { for (auto& x : b) if (x == 0) x = 1; b[b.size() - 1] = 0; } break;
     case A_FILLFF: for (auto& x : b) x = 0xFF; if (c.is_string) b[b.size() - 1] = 0; break;
     case A_RETARGET: for (size_t i = 0; i + 4 <= b.size(); i += 4) { uint32_t r = 0x2000 + static_cast<uint32_t>(i); memcpy(&b[i], &r, 4); } break;
+    case A_ZERO: for (auto& x : b) x = 0; break;
     default: break;
   }
   return b;
@@ -220,18 +221,18 @@ static std::vector<Case> build_cases(mon::Rng& rng)
   }
   // --- pointer reached through a sandbox cell (tainted_volatile<long*>): the pointer itself can be retargeted
   {
-    Case c; c.name = "copy_and_verify/volatile-pointer-to-long"; c.off = 4120; c.len = 4; c.A = bytes_of(uint32_t(0x2100)); c.acts = { A_RETARGET };
+    Case c; c.name = "copy_and_verify/volatile-pointer-to-long"; c.off = 4120; c.len = 4; c.A = bytes_of(uint32_t(0x2100)); c.acts = { A_RETARGET, A_ZERO };
     c.elems = [](const Bytes& s) {
       uint32_t r; memcpy(&r, s.data(), 4);
-      long v = 0; // value at the target the representation designates (targets hold their own offset)
-      v = static_cast<long>(static_cast<int32_t>(r & (SIZE - 1) & ~3u));
+      long v = 0; // value at the target the representation designates (targets hold their own offset); null -> verifier(nullptr) -> 0
+      v = r ? static_cast<long>(static_cast<int32_t>(r & (SIZE - 1) & ~3u)) : 0;
       return std::vector<Bytes>{ Bytes(reinterpret_cast<unsigned char*>(&v), reinterpret_cast<unsigned char*>(&v) + sizeof v) };
     };
     c.call = [](Obs& o) {
       // every aligned int32 in [0x2000,0x2400) and the 0xFFFFFFFC target hold their own offset, so provenance is decidable
       { trap::Pause p; for (uint32_t t = 0x2000; t < 0x2400; t += 4) Wd::wr<int32_t>(*SB, t, static_cast<int32_t>(t)); Wd::wr<int32_t>(*SB, (0xFFFFFFFFu & (SIZE - 1)) & ~3u, static_cast<int32_t>((0xFFFFFFFFu & (SIZE - 1)) & ~3u)); }
       tainted_volatile<long*, S>& cell = *Wd::tptr<long*>(*SB, 4120);
-      long r = cell.copy_and_verify([&](std::unique_ptr<long> v) { if (!v) return 0L; observe(o, v.get(), sizeof(long)); return *v; });
+      long r = cell.copy_and_verify([&](std::unique_ptr<long> v) { static long zero; zero = 0; if (!v) { observe(o, &zero, sizeof(long)); return 0L; } observe(o, v.get(), sizeof(long)); return *v; });
       set_result(o, r);
     };
     cs.push_back(c);
@@ -239,7 +240,7 @@ static std::vector<Case> build_cases(mon::Rng& rng)
   // --- pointer to struct
   {
     GPS g{ 1234567, 'q', 0x3000 };
-    Case c; c.name = "copy_and_verify/pointer-to-struct"; c.off = 4160; c.len = sizeof(GPS); c.A = bytes_of(g); c.acts = { A_FLIP, A_RETARGET };
+    Case c; c.name = "copy_and_verify/pointer-to-struct"; c.off = 4160; c.len = sizeof(GPS); c.A = bytes_of(g); c.acts = { A_FLIP, A_RETARGET, A_ZERO };
     c.elems = [](const Bytes& s) {
       GPS g; memcpy(&g, s.data(), sizeof g);
       long a = g.a; char b = g.b; uintptr_t p = g.c ? BASE + (g.c & (SIZE - 1)) : 0;
@@ -326,7 +327,7 @@ static std::vector<Case> build_cases(mon::Rng& rng)
       c.len = cap;
       c.A.assign(cap, 0);
       memcpy(c.A.data(), sc.s.data(), sc.s.size());
-      c.acts = { A_LENGTHEN, A_SHORTEN, A_FLIP, A_FILLFF };
+      c.acts = { A_LENGTHEN, A_SHORTEN, A_FLIP, A_FILLFF, A_ZERO };
       c.elems = [](const Bytes&) { return std::vector<Bytes>{}; };
       uint64_t off = sc.off;
       if (flavour == 0)
@@ -338,13 +339,13 @@ static std::vector<Case> build_cases(mon::Rng& rng)
   }
   // --- addresses
   {
-    Case c; c.name = "copy_and_verify_address/volatile-pointer"; c.off = 4400; c.len = 4; c.A = bytes_of(uint32_t(0x2200)); c.acts = { A_RETARGET, A_FILLFF };
+    Case c; c.name = "copy_and_verify_address/volatile-pointer"; c.off = 4400; c.len = 4; c.A = bytes_of(uint32_t(0x2200)); c.acts = { A_RETARGET, A_FILLFF, A_ZERO };
     c.elems = [](const Bytes& s) { uint32_t r; memcpy(&r, s.data(), 4); uintptr_t a = r ? BASE + (r & (SIZE - 1)) : 0; return std::vector<Bytes>{ Bytes(reinterpret_cast<unsigned char*>(&a), reinterpret_cast<unsigned char*>(&a) + 8) }; };
     c.call = [](Obs& o) { uintptr_t r = (*Wd::tptr<int*>(*SB, 4400)).copy_and_verify_address([&](uintptr_t a) { observe(o, &a, sizeof a); return a; }); set_result(o, r); };
     cs.push_back(c);
   }
   {
-    Case c; c.name = "copy_and_verify_buffer_address/volatile-pointer"; c.off = 4408; c.len = 4; c.A = bytes_of(uint32_t(0x2300)); c.acts = { A_RETARGET, A_FILLFF };
+    Case c; c.name = "copy_and_verify_buffer_address/volatile-pointer"; c.off = 4408; c.len = 4; c.A = bytes_of(uint32_t(0x2300)); c.acts = { A_RETARGET, A_FILLFF, A_ZERO };
     c.elems = cs.back().elems;
     c.call = [](Obs& o) { uintptr_t r = (*Wd::tptr<char*>(*SB, 4408)).copy_and_verify_buffer_address([&](uintptr_t a) { observe(o, &a, sizeof a); return a; }, 16); set_result(o, r); };
     cs.push_back(c);
@@ -418,6 +419,7 @@ int main(int argc, char** argv)
   int part = argc > 1 ? atoi(argv[1]) : 0;
   if (part == 0) {
     trap::install(BASE, SIZE);
+    trap::st.foreign_fault = mon::crash_handler; // a fault outside the trapped region (e.g. a null dereference) is recorded with its context
     auto cases = build_cases(rng);
     for (size_t i = 0; i < cases.size(); i++)
       if (i % mon::nslices() == mon::slice()) run_case(cases[i]);
